@@ -569,6 +569,33 @@ def verify_instance(key, label, timeout_ms=20000, which=None, seed=0, crosscheck
                 cc = {'witnesses': 0, 'checked': 0, 'mismatches': [], 'clause_failures': [],
                       'skipped': f'{type(e).__name__}: {e}'}
             out['crosscheck'] = cc
+            if cc.get('mismatches'):
+                # the engine and CPython disagree on a witness (a construct modelled wrongly - or code that does
+                # something the model has no notion of, e.g. memoises on an argument): before this is reported as a
+                # checker fault, the contract's frame and clauses are searched natively, so that a real violation is
+                # reported as one (bounded; with a replayed input)
+                try:
+                    from .crosscheck import native_search as _ns
+                    from .replay import make_replay as _mr
+                    for kd, cl in ([('frame', None)] if c.modifies is not None else []) + [('post', cl) for cl in c.ensures]:
+                        src = cl.src if cl is not None else ''
+                        srcs = _ns(task, kd, src, seed, tries=120, lenient=True)
+                        if srcs is not None:
+                            class _O2:
+                                pass
+                            fo = _O2()
+                            lab = cl.label if cl is not None else 'modifies-nothing-else'
+                            fo.name, fo.kind, fo.note = f'{c.qualname}#{kd}:{lab}@native', kd, src
+                            out.setdefault('extra_obligations', []).append({
+                                'name': f'{task.name}::{fo.name}', 'short': fo.name, 'kind': kd, 'role': 'clause',
+                                'result': 'sat', 'expect': 'unsat', 'ok': False, 'time': 0.0, 'backend': 'native-search',
+                                'line': None, 'note': src or f'modifies {list(c.modifies or [])} and nothing else',
+                                'props': list(cl.props) if cl is not None else [],
+                                'replay_src': _mr(task, fo, None, concrete_src=srcs),
+                                'found_by': 'bounded native search after an engine/CPython cross-check mismatch'})
+                            break
+                except Exception:  # noqa
+                    pass
             for o in task.ctx.obls:
                 if o.kind == 'cover' and o.result == 'unknown' and cc['witnesses'] > 0:
                     o.result, o.backend = 'sat', 'native-witness'
@@ -621,6 +648,7 @@ def verify_instance(key, label, timeout_ms=20000, which=None, seed=0, crosscheck
                 except Exception:  # noqa
                     pass
             out['obligations'].append(d)
+        out['obligations'].extend(out.pop('extra_obligations', []))
         out['trusted'] = dict(task.ctx.trusted)
         out['dropped'] = dict(task.ctx.dropped)
         out['inlined'] = dict(task.ctx.functions_inlined)
@@ -638,15 +666,16 @@ def verify_instance(key, label, timeout_ms=20000, which=None, seed=0, crosscheck
             from .replay import make_replay
             inst = dict(instances(c))[label]
             task = Task(c, inst, label)
-            for kd, cl in [('post', cl) for cl in c.ensures] + [('raises', None)] + \
+            for kd, cl in ([('frame', None)] if c.modifies is not None else []) + \
+                    [('post', cl) for cl in c.ensures] + [('raises', None)] + \
                     [(f'exc-post:{en}', cl) for en, cls in c.exc_ensures.items() for cl in cls]:
                 src = cl.src if cl is not None else ''
-                srcs = native_search(task, kd, src, seed, tries=300, lenient=True)
+                srcs = native_search(task, kd, src, seed, tries=120 if kd == 'frame' else 300, lenient=True)
                 if srcs is not None:
                     class _O:
                         pass
                     fo = _O()
-                    lab = cl.label if cl is not None else 'raises'
+                    lab = cl.label if cl is not None else ('modifies-nothing-else' if kd == 'frame' else 'raises')
                     fo.name, fo.kind, fo.note = f'{c.qualname}#{kd}:{lab}@native', kd, src
                     kd = 'post' if kd.startswith('exc-post') else kd
                     out['obligations'].append({
